@@ -169,6 +169,18 @@ def check(run):
     for tag, specs in mixed_tight_diffuse_quartets(full=not quick)[:: (2 if quick else 1)]:
         quartet_case(run, specs, "general", "tight/diffuse/moderate " + tag)
     large_quartet_case(run, rng, full=not quick)
+    # tight shells on atoms so far apart that every Gaussian product factor of a pair underflows to exactly zero: the block is
+    # zero (to 1e-300), not NaN
+    for n, (ls, dist) in enumerate([((1, 0, 0, 1), 14.0), ((0, 1, 1, 1), 40.0)] if quick else
+                                   [((1, 0, 0, 1), 14.0), ((0, 1, 1, 1), 40.0), ((1, 1, 0, 0), 14.5), ((0, 0, 1, 0), 25.0), ((2, 0, 1, 1), 15.0)]):
+        e = (9.0, 10.0) if dist < 20 else (1.1, 1.4)
+        far = [0.6 * dist / 1.0, -0.5 * dist / 1.0, 0.62 * dist / 1.0]
+        sc = dist / float(np.linalg.norm(far))
+        far = [float(x * sc) for x in far]
+        A, B = [0.1, -0.2, 0.3], [0.1 + far[0], -0.2 + far[1], 0.3 + far[2]]
+        cen = [A, B, A, B] if n % 2 == 0 else [A, B, B, A]
+        specs = [ShellSpec(l, cen[i], [e[i % 2]], [[1.0]]) for i, l in enumerate(ls)]
+        quartet_case(run, specs, "general", "underflowing pair factors")
     # nearly coincident centres within the bra and between bra and ket
     from checks.common import NEAR_LADDER
     for n, ls in enumerate([(0, 1, 0, 0), (1, 1, 0, 1), (0, 2, 1, 0), (1, 0, 1, 0)] + ([] if quick else [(2, 1, 1, 1), (1, 2, 2, 0), (0, 0, 0, 1), (2, 2, 0, 0)])):
@@ -199,6 +211,10 @@ def check(run):
             t = random_transform(rng, sum(s.size for s in specs))
             run.count("transform")
         basis_case(run, specs, "chemist" if k % 2 else "physicist", t)
+    from checks.common import structural_families
+    for n_, (lab, sp_, T) in enumerate(structural_families(run, transforms=False, lmax_twins=1, lmax_obj=1, ls_extreme=(0, 1), small=True)):
+        basis_case(run, sp_, "chemist" if n_ % 2 else "physicist", T)
+        run.count(lab)
     basis_case(run, [ShellSpec(1, [0, 0, 0], [0.8, 2.5], [[1.0], [0.4]], sph=True),
                      ShellSpec(0, [0.0, 0.5, -0.3], [1.3], [1.0])], "chemist")
     basis_case(run, [ShellSpec(1, [0, 0, 0], [0.8, 2.5], [[1.0], [0.4]], sph=True),
